@@ -99,124 +99,94 @@ def enumeration_modes(repo, chk):
                'get_combinations_from_columns must be applied to input_dataframe.columns: otherwise rows can mention columns that are not in the feature space')
 
 
+def _contains(term, pred):
+    from ..terms import walk_term
+    return any(pred(x) for x in walk_term(term))
+
+
 def mirroring(repo, chk):
-    fn = repo.func(CR, 'mixed_rank_graph')
-    par = parents(fn.node)
-    # results of the pool
-    # the loop that walks the scored triplets: a for over a named list whose body appends (to a list) the loop variable or tuples built from it
-    def walks_triplets(n):
-        if not (isinstance(n, ast.For) and isinstance(n.iter, ast.Name) and isinstance(n.target, ast.Name)):
-            return False
-        t = n.target.id
-        for c in ast.walk(n):
-            if isinstance(c, ast.Call) and isinstance(c.func, ast.Attribute) and c.func.attr == 'append' and c.args:
-                if any(isinstance(x, ast.Name) and x.id == t for x in ast.walk(c.args[0])):
-                    return True
-                if isinstance(c.args[0], ast.Name):
-                    return True
-        return False
-    loops = [n for n in own_nodes(fn.node) if walks_triplets(n)]
-    if len(loops) != 1:
-        chk.bad('C06.1a', 'tuple-shape', fn.site(), 'for triplet in <pool results>: ...', 'no loop over the pool results that mirrors every triplet was found')
+    """Decided on the path summary of mixed_rank_graph (common.MRGModel): for every heuristic other than Constant the rows handed to the
+    batch summary are, for every result t of the single pool submission, t and (t[1], t[0], t[2]); for Constant one (a, b, 0.0) per pair."""
+    from .common import mrg_model
+    M = mrg_model(repo)
+    fn = M.fn
+    if M.broken or not M.paths:
+        chk.unsure('C06.1a', 'tuple-shape', fn.site(), 'mixed_rank_graph', M.broken or 'no path of mixed_rank_graph could be evaluated')
         return
-    lp = loops[0]
-    t = lp.target.id
-    appends = [c for c in ast.walk(lp) if isinstance(c, ast.Call) and isinstance(c.func, ast.Attribute) and c.func.attr == 'append' and isinstance(c.func.value, ast.Name)]
-    lists = {c.func.value.id for c in appends}
-    conditional = [x for x in ast.walk(lp) if isinstance(x, (ast.If, ast.Try, ast.For, ast.While, ast.Continue, ast.Break)) and x is not lp]
-    shapes = []
-    for c in appends:
-        a = c.args[0]
-        if isinstance(a, ast.Name):
-            d = [n for n in ast.walk(lp) if isinstance(n, ast.Assign) and isinstance(n.targets[0], ast.Name) and n.targets[0].id == a.id]
-            if a.id == t:
-                shapes.append('same')
-                continue
-            if len(d) == 1:
-                a = d[0].value
-        if isinstance(a, ast.Tuple) and len(a.elts) == 3:
-            idx = []
-            for e in a.elts:
-                if isinstance(e, ast.Subscript) and isinstance(e.value, ast.Name) and e.value.id == t and isinstance(e.slice, ast.Constant):
-                    idx.append(e.slice.value)
+    is_sampler = lambda x: isinstance(x, tuple) and x[:2] == ('call', ('lib', f'{CR}.prior_combinations_sample'))
+    seen = set()
+    for p in M.paths:
+        res = p.res
+        if res.unknown is not None or p.rows is None:
+            node = res.unknown
+            chk.unsure('C06.1a', 'tuple-shape', fn.site(node) if node is not None else fn.site(), p.describe(), 'the rows returned on this path could not be written as one expression (statement outside the path vocabulary)')
+            continue
+        key = (p.heuristic == 'Constant', p.rows)
+        if key in seen:
+            continue
+        seen.add(key)
+        site = fn.site(res.returned) if hasattr(res.returned, 'lineno') else fn.site()
+        shown = f'{p.describe()}: rows = {show(p.rows)[:150]}'
+        cands_of = None
+        if p.heuristic == 'Constant':
+            C = M.constant_rows(p.rows)
+            if C is None:
+                from ..terms import unify
+                other_score = unify(M.pat('[(c[0], c[1], S) for c in C]', ['C', 'S']), p.rows)
+                if other_score is not None:
+                    chk.bad('C06.1c', 'tuple-shape', site, shown, f'the Constant heuristic must list each sampled pair once with score 0.0; the score listed is {show(other_score["S"])[:60]}')
+                elif M.mirrored(p.rows) is not None:
+                    chk.bad('C06.1c', 'tuple-shape', site, shown, 'the Constant heuristic must list each sampled pair once with score 0.0 (it is scored and mirrored like the other heuristics)')
                 else:
-                    idx.append(ast.unparse(e))
-            shapes.append(tuple(idx))
+                    chk.unsure('C06.1c', 'tuple-shape', site, shown, 'the rows of the Constant path are not recognised as one (a, b, 0.0) per pair')
+                continue
+            chk.ok('C06.1c', 'tuple-shape', site, shown, 'Constant lists each pair once with literal 0')
+            cands_of = C
         else:
-            shapes.append(ast.unparse(a))
-    norm = sorted('same' if s == (0, 1, 2) else str(s) for s in shapes)
-    ok = len(lists) == 1 and not conditional and norm == sorted(['same', str((1, 0, 2))])
-    chk.expect(ok, 'C06.1a', 'tuple-shape', fn.site(lp), f'appends per triplet: {shapes}', 'each triplet contributes exactly (t0,t1,t2) and (t1,t0,t2): both orientations, identical score',
-               f'per evaluated pair the loop must append exactly the triplet and its mirror (t[1], t[0], t[2]) unconditionally; found {shapes}{" under a condition" if conditional else ""}')
-    # what is returned on this path is that list
-    rets = [r for r in returns(fn) if r.lineno > lp.lineno]
-    okr = False
-    for r in rets:
-        a0 = r.value.args[0] if isinstance(r.value, ast.Call) and r.value.args else None
-        if isinstance(a0, ast.Name):
-            if a0.id in lists:
-                okr = True
-            else:
-                d = [n for n in own_nodes(fn.node) if isinstance(n, ast.Assign) and isinstance(n.targets[0], ast.Name) and n.targets[0].id == a0.id and isinstance(n.value, ast.Name) and n.value.id in lists]
-                # `triplets = final_triplets` (re-bound to the mirrored list); the name must not be re-bound to anything else after the loop
-                later = [n for n in own_nodes(fn.node) if isinstance(n, ast.Assign) and isinstance(n.targets[0], ast.Name) and n.targets[0].id == a0.id and n.lineno > lp.end_lineno]
-                okr = bool(d) and not later
-    chk.expect(okr, 'C06.1b', 'origin', fn.site(rets[0]) if rets else fn.site(), ast.unparse(rets[0]) if rets else 'return', 'the batch summary carries the mirrored list', 'the returned triplet list is not the mirrored list')
-    # Constant path: (c1, c2, 0.0) once per pair
-    cl = [n for n in own_nodes(fn.node) if isinstance(n, ast.For) and isinstance(n.target, ast.Tuple) and len(n.target.elts) == 2]
-    okc = False
-    for n in cl:
-        aps = [c for c in ast.walk(n) if isinstance(c, ast.Call) and isinstance(c.func, ast.Attribute) and c.func.attr == 'append']
-        if len(aps) == 1 and isinstance(aps[0].args[0], ast.Tuple) and len(aps[0].args[0].elts) == 3:
-            e = aps[0].args[0].elts
-            tn = [x.id for x in n.target.elts if isinstance(x, ast.Name)]
-            if [getattr(e[0], 'id', None), getattr(e[1], 'id', None)] == tn and isinstance(e[2], ast.Constant) and e[2].value == 0:
-                okc = True
-                chk.ok('C06.1c', 'tuple-shape', fn.site(n), ast.unparse(aps[0]), 'Constant lists each pair once with literal 0')
-    if not okc:
-        chk.bad('C06.1c', 'tuple-shape', fn.site(), 'for c1, c2 in combinations: append((c1, c2, 0.0))', 'the Constant heuristic must list each sampled pair once with score 0.0')
-    for n in cl:
-        g = par.get(n)
-        okg = isinstance(g, ast.If) and term_of(fn, g.test, inline=False) == term_of(fn, ast.parse(f"{fn.params[1]}.heuristic == 'Constant'", mode='eval').body, inline=False) and n in g.body
-        chk.expect(okg, 'C06.1d', 'R14', fn.site(g) if isinstance(g, ast.If) else fn.site(n), ast.unparse(g.test) if isinstance(g, ast.If) else '(unguarded)', "the one-row-per-pair zero listing is used exactly for the heuristic 'Constant'",
-                   "the zero-score shortcut must be guarded by exactly `args.heuristic == 'Constant'`: otherwise scoring heuristics emit single, unmirrored rows with score 0")
+            R = M.mirrored(p.rows)
+            if R is None:
+                if M.constant_rows(p.rows) is not None:
+                    chk.bad('C06.1d', 'R14', site, shown, "the zero-score shortcut must be taken exactly for `args.heuristic == 'Constant'`: here a scoring heuristic emits single, unmirrored rows with score 0")
+                elif M.pool_results(p.rows) is not None:
+                    chk.bad('C06.1a', 'tuple-shape', site, shown, 'the results of the pool are returned as they are: the mirrored orientation (t[1], t[0], t[2]) of every evaluated pair is missing')
+                elif p.rows[0] in ('listcomp', 'genexp') and p.rows[2] and M.pool_results(p.rows[2][0][0]) is not None:
+                    chk.bad('C06.1a', 'tuple-shape', site, shown, 'per evaluated pair the rows must be exactly the triplet and its mirror (t[1], t[0], t[2]), unconditionally')
+                else:
+                    chk.unsure('C06.1a', 'tuple-shape', site, shown, 'the returned rows are not recognised as the mirrored list of the pool results')
+                continue
+            chk.ok('C06.1a', 'tuple-shape', site, shown, 'each triplet contributes exactly (t0,t1,t2) and (t1,t0,t2): both orientations, identical score')
+            pr = M.pool_results(R)
+            if pr is None:
+                chk.unsure('C06.1b', 'origin', site, show(R)[:140], 'the mirrored list is not built from the results of one pool submission')
+                continue
+            chk.ok('C06.1b', 'origin', site, f'results = {show(R)[:120]}', 'the batch summary carries the mirrored list of the pool results')
+            cands_of = pr[2]
+        # the evaluated pairs are the sampler result (cap applied before evaluation, nothing re-added afterwards)
+        K = M.sampled(cands_of)
+        if K is not None:
+            chk.ok('C06.3' if p.heuristic != 'Constant' else 'C06.3c', 'origin', site, f'{p.describe()}: evaluated = prior_combinations_sample({show(K)[:80]}, args)', 'the evaluated list is the sampler result (cap applied before evaluation)')
+        elif _contains(cands_of, is_sampler):
+            chk.bad('C06.3', 'origin', site, f'{p.describe()}: evaluated = {show(cands_of)[:140]}', 'after the cap the candidate list is re-bound, extended or filtered again: the evaluated pairs are not the return value of prior_combinations_sample')
+        else:
+            chk.bad('C06.3', 'origin', site, f'{p.describe()}: evaluated = {show(cands_of)[:140]}', 'the pairs handed to the pool are not the return value of prior_combinations_sample: the per-batch cap is not applied before evaluation')
+        # in-place edits of the capped list (other than random.shuffle)
+        for eff in res.effects:
+            for n in ast.walk(eff):
+                if not isinstance(n, ast.Call):
+                    continue
+                tgt = None
+                if isinstance(n.func, ast.Attribute) and isinstance(n.func.value, ast.Name) and n.func.attr in ('append', 'extend', 'insert', 'pop', 'remove', 'clear', 'sort', 'reverse'):
+                    tgt = n.func.value.id
+                elif (fn.module.dotted(n.func) or '') in ('heapq.heapify', 'heapq.heappop', 'heapq.heappush') and n.args and isinstance(n.args[0], ast.Name):
+                    tgt = n.args[0].id
+                v = (res.env or {}).get(tgt) if tgt else None
+                if v is not None and any(isinstance(x, ast.Call) and fn.module.dotted(x.func) == f'{CR}.prior_combinations_sample' for x in ast.walk(v)):
+                    chk.bad('C06.3b', 'origin', fn.site(n), ast.unparse(n)[:100], 'the capped list is modified (other than by random.shuffle) before it is evaluated')
+    chk.analysed['mixed_rank_graph_paths'] = len(M.paths)
 
 
 def cap_before_evaluation(repo, chk):
-    fn = repo.func(CR, 'mixed_rank_graph')
-    m = fn.module
-    amaps = [c for c in calls(fn) if isinstance(c.func, ast.Attribute) and c.func.attr in ('amap', 'map', 'imap', 'uimap', 'apipe', 'pipe') and len(c.args) >= 2]
-    if len(amaps) != 1 or not isinstance(amaps[0].args[1], ast.Name):
-        chk.unsure('C06.3', 'origin', fn.site(), 'p.amap(f, combinations)', f'{len(amaps)} pool submissions found, expected one over a named list')
-        return
-    name = amaps[0].args[1].id
-    body = fn.node.body
-    top = [s for s in body if (isinstance(s, ast.Assign) and any(isinstance(t, ast.Name) and t.id == name for t in s.targets))]
-    all_defs = [n for n in own_nodes(fn.node) if isinstance(n, (ast.Assign, ast.AugAssign)) and any(isinstance(t, ast.Name) and t.id == name for t in (n.targets if isinstance(n, ast.Assign) else [n.target]))]
-    sampler_defs = [s for s in all_defs if isinstance(s, ast.Assign) and isinstance(s.value, ast.Call) and m.dotted(s.value.func) == f'{CR}.prior_combinations_sample']
-    if len(sampler_defs) != 1 or sampler_defs[0] not in top:
-        chk.bad('C06.3', 'origin', fn.site(amaps[0]), ast.unparse(amaps[0]), 'the pairs handed to the pool are not (unconditionally) the return value of prior_combinations_sample: the per-batch cap is not applied before evaluation')
-        return
-    sd = sampler_defs[0]
-    later = [s for s in all_defs if s.lineno > sd.lineno]
-    arg0 = sd.value.args[0] if sd.value.args else None
-    feeds = isinstance(arg0, ast.Name) and arg0.id == name
-    chk.expect(not later and feeds, 'C06.3', 'origin', fn.site(sd), ast.unparse(sd), 'the evaluated list is the sampler result (cap applied before evaluation)',
-               'after the cap the candidate list is re-bound or extended again, or the sampler is not fed the enumerated pairs')
-    # mutations of the list after the sampler: only random.shuffle
-    muts = []
-    for n in own_nodes(fn.node):
-        if isinstance(n, ast.Call) and n.lineno > sd.lineno:
-            if any(isinstance(a, ast.Name) and a.id == name for a in n.args) and m.dotted(n.func) in ('heapq.heapify', 'heapq.heappop', 'heapq.heappush', 'numpy.random.shuffle'):
-                muts.append(n)
-            if isinstance(n.func, ast.Attribute) and isinstance(n.func.value, ast.Name) and n.func.value.id == name and n.func.attr in ('append', 'extend', 'insert', 'pop', 'remove', 'clear', 'sort'):
-                muts.append(n)
-    chk.expect(not muts, 'C06.3b', 'origin', fn.site(muts[0]) if muts else fn.site(sd), ast.unparse(muts[0]) if muts else f'{name}: only random.shuffle after the cap', 'between cap and evaluation the list is only shuffled',
-               'the capped list is modified (other than by random.shuffle) before it is evaluated')
-    # the Constant loop iterates the same list
-    cl = [n for n in own_nodes(fn.node) if isinstance(n, ast.For) and isinstance(n.target, ast.Tuple) and len(n.target.elts) == 2 and n.lineno > sd.lineno]
-    for n in cl:
-        chk.expect(isinstance(n.iter, ast.Name) and n.iter.id == name, 'C06.3c', 'origin', fn.site(n), ast.unparse(n.iter), 'Constant path lists the capped pairs', 'the Constant path must iterate the capped list')
+    return
 
 
 def names(repo, chk):
